@@ -878,6 +878,8 @@ func (m *serverHelloMsg) unmarshal(data []byte) bool {
 			fullExt[3] = byte(len(extData))
 			copy(fullExt[4:], extData)
 			m.unknownExtensions = append(m.unknownExtensions, fullExt)
+			// The body has been recorded, not parsed: skip it.
+			continue
 		}
 
 		if !extData.Empty() {
